@@ -323,6 +323,11 @@ func (p *Path) intrinsic(fn *ssa.Function, args []Value) (Value, bool) {
 		p.poolPut(args[0], args[1])
 		return nil, true
 	case "(*golang.org/x/text/collate.Collator).Key":
+		// Key drives the collator's internal iterator (c._iter): the call is a write to the Collator object, which
+		// matters when two trees share one collator (C16)
+		if cc := p.ptrCell(args[0]); cc != nil {
+			p.noteWrite(cc)
+		}
 		return p.collKey(args[1], args[2]), true
 	case "golang.org/x/text/collate.New":
 		// the collator object itself is opaque: only Key is ever called on it (stubbed)
